@@ -586,10 +586,13 @@ func (interp *Interpreter) cfg(root *node, sc *scope, importPath, pkgName string
 			sc = sc.pushBloc()
 
 		case switchStmt, switchIfStmt, typeSwitch:
-			// Make sure default clause is in last position.
+			// Make sure default clause is in last position, the other clauses remaining in
+			// the order of the source.
 			c := n.lastChild().child
 			if i, l := getDefault(n), len(c)-1; i >= 0 && i != l {
-				c[i], c[l] = c[l], c[i]
+				def := c[i]
+				copy(c[i:], c[i+1:])
+				c[l] = def
 			}
 			sc = sc.pushBloc()
 			sc.loop = n
@@ -2138,14 +2141,14 @@ func (interp *Interpreter) cfg(root *node, sc *scope, importPath, pkgName string
 					c.child[0].tnext = c
 					c.start = c.child[0].start
 
-					if i < l-1 && len(body.child) > 0 && body.lastChild().kind == fallthroughtStmt {
+					if nc := nextClause(clauses, c); nc != nil && len(body.child) > 0 && body.lastChild().kind == fallthroughtStmt {
 						if n.kind == typeSwitch {
 							err = body.lastChild().cfgErrorf("cannot fallthrough in type switch")
 						}
-						if len(clauses[i+1].child) == 0 {
+						if len(nc.child) == 0 {
 							body.tnext = n // Fallthrough to next with empty body, just exit.
 						} else {
-							body.tnext = clauses[i+1].lastChild().start
+							body.tnext = nc.lastChild().start
 						}
 					} else {
 						body.tnext = n // Exit switch at end of clause body.
@@ -2204,8 +2207,8 @@ func (interp *Interpreter) cfg(root *node, sc *scope, importPath, pkgName string
 						c.start = body.start
 					}
 					// If last case body statement is a fallthrough, then jump to next case body
-					if i < l-1 && len(body.child) > 0 && body.lastChild().kind == fallthroughtStmt {
-						body.tnext = clauses[i+1].lastChild().start
+					if nc := nextClause(clauses, c); nc != nil && len(nc.child) > 0 && len(body.child) > 0 && body.lastChild().kind == fallthroughtStmt {
+						body.tnext = nc.lastChild().start
 					} else {
 						body.tnext = n
 					}
@@ -2643,6 +2646,18 @@ func setFNext(cond, next *node) {
 		return
 	}
 	cond.fnext = next
+}
+
+// nextClause returns the clause following c in the source of a switch statement, or nil.
+// It is the target of a fallthrough statement. The default clause is in last position in
+// clauses, wherever it stands in the source.
+func nextClause(clauses []*node, c *node) (next *node) {
+	for _, cc := range clauses {
+		if cc.pos > c.pos && (next == nil || cc.pos < next.pos) {
+			next = cc
+		}
+	}
+	return next
 }
 
 // GetDefault return the index of default case clause in a switch statement, or -1.
